@@ -184,6 +184,8 @@ type installation struct {
 	bailed     bool // a bailout happened during the current parse
 }
 
+var oddPrefixes = []string{"\xEF\xBB\xBF", "\xEF\xBB\xBF// c\n", "\uFEFF\n", "#!/usr/bin/env xjs\n", "\x00", "\u200b", "\u00a0", "\r\n", "\t\v\f ", "/**/", "<!-- x\n", "\xFF\xFE", "\u2028"}
+
 type bailoutPanic struct{}
 
 // specificPrefix parses the prefix with the public parse function for the current token's kind.
@@ -242,6 +244,32 @@ func (x *installation) nestedParse() {
 	_ = o
 }
 
+// installVia installs one party directly or through a plugin. Plugins come in the spellings users
+// write: using the builder they are handed, using the builder variable they closed over, and
+// presets that install further plugins from inside their own callback.
+func (x *installation) installVia(via bool, direct func(), onArg func(b *parser.Builder)) {
+	if !via {
+		direct()
+		return
+	}
+	x.st.Inc("probe.installed_via_plugin")
+	pb := x.pb
+	switch x.ch.Choose(4) {
+	case 0:
+		pb.Install(onArg)
+	case 1:
+		x.st.Inc("probe.plugin_uses_captured_builder")
+		pb.Install(func(*parser.Builder) { direct() })
+	case 2:
+		x.st.Inc("probe.plugin_installs_nested_plugin")
+		pb.Install(func(b *parser.Builder) { b.Install(onArg) })
+	default:
+		x.st.Inc("probe.plugin_installs_nested_plugin")
+		x.st.Inc("probe.plugin_uses_captured_builder")
+		pb.Install(func(*parser.Builder) { pb.Install(func(*parser.Builder) { direct() }) })
+	}
+}
+
 func (x *installation) add(k byte, via bool) {
 	lb, pb, in, ch, r, st := x.lb, x.pb, x.in, x.ch, x.r, x.st
 	{
@@ -267,12 +295,7 @@ func (x *installation) add(k byte, via bool) {
 				return t
 			}
 			// token interceptors are installed on the lexer builder; "through plugins" = a parser plugin that reaches the lexer builder
-			if via {
-				pb.Install(func(b *parser.Builder) { b.LexerBuilder.UseTokenInterceptor(f) })
-				st.Inc("probe.installed_via_plugin")
-			} else {
-				lb.UseTokenInterceptor(f)
-			}
+			x.installVia(via, func() { lb.UseTokenInterceptor(f) }, func(b *parser.Builder) { b.LexerBuilder.UseTokenInterceptor(f) })
 		case 'S':
 			idx := x.si
 			x.si++
@@ -318,12 +341,7 @@ func (x *installation) add(k byte, via bool) {
 				}
 				return s
 			}
-			if via {
-				pb.Install(func(b *parser.Builder) { b.UseStatementInterceptor(f) })
-				st.Inc("probe.installed_via_plugin")
-			} else {
-				pb.UseStatementInterceptor(f)
-			}
+			x.installVia(via, func() { pb.UseStatementInterceptor(f) }, func(b *parser.Builder) { b.UseStatementInterceptor(f) })
 		case 'E':
 			idx := x.ei
 			x.ei++
@@ -376,12 +394,7 @@ func (x *installation) add(k byte, via bool) {
 				}
 				return e
 			}
-			if via {
-				pb.Install(func(b *parser.Builder) { b.UseExpressionInterceptor(f) })
-				st.Inc("probe.installed_via_plugin")
-			} else {
-				pb.UseExpressionInterceptor(f)
-			}
+			x.installVia(via, func() { pb.UseExpressionInterceptor(f) }, func(b *parser.Builder) { b.UseExpressionInterceptor(f) })
 		}
 	}
 }
@@ -681,6 +694,13 @@ func (e *Engine) Run(prop string, ch *kernel.Chooser, st *kernel.Stats) kernel.R
 			text, valid, faultDesc = f.Text, false, f.Kind+":"+f.Ctx
 			st.Inc("fault." + f.Kind)
 		}
+	}
+	if ch.Bool(1, 12) {
+		// the stored text starts with bytes editors and tools leave there: byte-order marks, a shebang line,
+		// invisible spaces, NUL, an HTML comment opener, an empty block comment. Ground truth no longer applies.
+		pre := oddPrefixes[ch.Choose(len(oddPrefixes))]
+		text, valid, faultDesc = pre+text, false, faultDesc+"+prefix"
+		st.Inc("fault.odd_prefix")
 	}
 	m := xutil.AllModes[ch.Choose(4)]
 	in := drawInstall(ch, forC16)
@@ -1104,7 +1124,7 @@ func init() {
 			"sampling over programs, installations and action schedules; not exhaustive",
 		},
 		RequiredProbes: map[string][]string{
-			"C04": {"probe.reentrant_invocations", "probe.reentrant_at_depth_ge3", "probe.reentrant_party_before_passthrough_party", "probe.installed_via_plugin", "probe.malformed_with_errors_under_many_interceptors", "probe.eight_of_each_kind", "probe.builder_reused_for_another_parser", "probe.party_installed_between_two_builds", "probe.nested_parser_run_inside_interceptor", "probe.reentrant_via_specific_public_parse_function"},
+			"C04": {"probe.reentrant_invocations", "probe.reentrant_at_depth_ge3", "probe.reentrant_party_before_passthrough_party", "probe.installed_via_plugin", "probe.malformed_with_errors_under_many_interceptors", "probe.eight_of_each_kind", "probe.builder_reused_for_another_parser", "probe.party_installed_between_two_builds", "probe.nested_parser_run_inside_interceptor", "probe.reentrant_via_specific_public_parse_function", "probe.plugin_uses_captured_builder", "probe.plugin_installs_nested_plugin", "fault.odd_prefix"},
 			"C16": {"probe.depth_ge5", "probe.function_body_direct", "probe.funcexpr_in_call_argument", "probe.funcexpr_in_object_value", "probe.funcexpr_in_condition", "probe.final_state_checked_on_erroring_input", "probe.nested_parser_run_inside_interceptor", "probe.builder_reused_for_another_parser", "probe.bailout_recovered_by_outer_interceptor", "probe.bailout_thrown_inside_function_body", "probe.reentrant_via_ParseFunctionExpression", "probe.context_stack_depth_ge40"},
 		},
 	})
